@@ -111,7 +111,7 @@ def finish(a, meta, rc):
     dst = os.path.join(VERIF, 'seeded', a.name)
     os.makedirs(dst, exist_ok=True)
     for f in ('patch.diff', 'demo.py', 'notes.md'):
-        if os.path.exists(os.path.join(a.src, f)):
+        if os.path.exists(os.path.join(a.src, f)) and os.path.abspath(os.path.join(a.src, f)) != os.path.abspath(os.path.join(dst, f)):
             shutil.copy(os.path.join(a.src, f), os.path.join(dst, f))
     old = {}
     mp = os.path.join(dst, 'meta.json')
@@ -120,7 +120,7 @@ def finish(a, meta, rc):
             old = json.load(open(mp))
         except Exception:  # noqa: BLE001
             old = {}
-    for k in ('needs', 'kept', 'comment'):
+    for k in ('needs', 'kept', 'comment', 'change', 'history', 'round', 'source') + (('tests_with_change', 'tests_rc') if a.skip_tests else ()):
         if k in old and k not in meta:
             meta[k] = old[k]
     with open(mp, 'w') as fh:
